@@ -74,4 +74,41 @@ def lineLenAt (t : List Byte) (off : Nat) : Nat :=
 /-- number of lines of a text -/
 def lineCount (t : List Byte) : Nat := 1 + breaksR t.reverse
 
+/-! ### the value trees of the round-trip claim -/
+
+mutual
+/-- built from null, booleans, 32/64-bit signed integers, NUL-free strings, lists and maps with
+    NUL-free, pairwise different keys (a `HashMap` has no repeated key) -/
+def wf : Val → Prop
+  | .null => True
+  | .bool _ => True
+  | .dbl _ => False
+  | .int i => -2147483648 ≤ i ∧ i ≤ 2147483647
+  | .int64 i => -9223372036854775808 ≤ i ∧ i ≤ 9223372036854775807
+  | .str s => 0 ∉ s
+  | .list l => wfList l
+  | .map m => wfMap m
+def wfList : List Val → Prop
+  | [] => True
+  | v :: vs => wf v ∧ wfList vs
+def wfMap : List (List Byte × Val) → Prop
+  | [] => True
+  | (k, v) :: m => 0 ∉ k ∧ wf v ∧ (∀ kv ∈ m, kv.1 ≠ k) ∧ wfMap m
+end
+
+mutual
+/-- what comes back: a 64-bit integer that fits 32 bits is read as a 32-bit integer -/
+def norm : Val → Val
+  | .int64 i => if wrap32 i = i then .int (wrap32 i) else .int64 i
+  | .list l => .list (normList l)
+  | .map m => .map (normMap m)
+  | v => v
+def normList : List Val → List Val
+  | [] => []
+  | v :: vs => norm v :: normList vs
+def normMap : List (List Byte × Val) → List (List Byte × Val)
+  | [] => []
+  | (k, v) :: m => (k, norm v) :: normMap m
+end
+
 end Nstd.Json
